@@ -47,15 +47,41 @@ func runFCRange(c *core.Ctx) {
 	for i, r := range rets {
 		v := an.ObjOf(info, r.(*ast.ReturnStmt).Results[0])
 		ok := false
-		for _, cd := range g.CondAtoms(func(ex ast.Expr) bool {
+		// the return is reached only on a branch of a condition whose outcome implies count < ceiling, however the
+		// comparison is spelled (`count >= ceiling` false, `!(count < ceiling)` false, `ceiling > count` true, ...)
+		below := func(ex ast.Expr, val bool) bool {
 			be, isBin := an.Unparen(ex).(*ast.BinaryExpr)
-			return isBin && be.Op == token.GEQ && an.ObjOf(info, be.X) == v && an.ObjOf(info, be.Y) == ceiling
-		}) {
-			// the true branch must panic
-			p, _ := g.PointOf(cd)
-			tb := g.CFG.Blocks[p.Block].Succs[0]
-			if g.Exit(tb) == an.ExitPanic && g.GuardedBy(r, cd, false) {
-				ok = true
+			if !isBin || v == nil {
+				return false
+			}
+			x, y, op := an.ObjOf(info, be.X), an.ObjOf(info, be.Y), be.Op
+			if x == ceiling && y == v {
+				x, y = y, x
+				switch op {
+				case token.LSS:
+					op = token.GTR
+				case token.GTR:
+					op = token.LSS
+				case token.LEQ:
+					op = token.GEQ
+				case token.GEQ:
+					op = token.LEQ
+				}
+			}
+			if x != v || y != ceiling {
+				return false
+			}
+			return (op == token.LSS && val) || (op == token.GEQ && !val)
+		}
+		for _, cd := range g.CondAtoms(func(ex ast.Expr) bool { return true }) {
+			ex, isEx := cd.(ast.Expr)
+			if !isEx {
+				continue
+			}
+			for _, outcome := range []bool{true, false} {
+				if an.Implies(ex, outcome, below) && g.GuardedBy(r, cd, outcome) {
+					ok = true
+				}
 			}
 		}
 		c.Check(v != nil && ok, fmt.Sprintf("NextFairnessCounter:return#%d-in-range", i+1), r.Pos(), "the returned count passed `count >= ceiling -> panic`",
@@ -73,7 +99,7 @@ func runFCRange(c *core.Ctx) {
 			return true
 		}
 		n++
-		be, ok := an.Unparen(kv.Value).(*ast.BinaryExpr)
+		be, ok := an.Unparen(an.ResolveLocal(info, fn.Body(), kv.Value)).(*ast.BinaryExpr)
 		if !ok || be.Op != token.REM || an.ObjOf(info, be.Y) != ceiling {
 			okInit = false
 		}
